@@ -1,6 +1,6 @@
 (** C02 — no stale value survives any edit.  Property theorems only. *)
 From Coq Require Import List ZArith Bool.
-From MX Require Import Exec.Model Exec.Spec Exec.Sim Exec.Cover Exec.Quiet Exec.Edits3 Exec.Edits4 Exec.Edits6 Exec.Results Exec.Top.
+From MX Require Import Exec.Model Exec.Spec Exec.Sim Exec.Cover Exec.Quiet Exec.Edits3 Exec.Edits4 Exec.Edits6 Exec.Results Exec.Top Exec.Rg Exec.Diff.
 Import ListNotations.
 
 (** For every model of the formula vocabulary whose formulas never handle the
@@ -19,16 +19,12 @@ Import ListNotations.
       other than the depth limit is the specification's error).
     What was cached earlier therefore never changes a later answer.
 
-    PARTIAL with respect to the property text: (1) creating, deleting,
-    renaming cells and spaces, base changes, creating / shadowing / deleting
-    references are not operations of this executor model (they live in the
-    Defs / Names / Alive layers, C03, C11-C13, and are covered here only
-    through the "derived cells" realisation of the correspondence); (2) the
-    statement is "answers = specification of the current definitions" rather
-    than the differential "live model = replay of the edits only"; the latter
-    follows once the definition/input part of the state is shown to evolve
-    independently of the cache (not mechanised; the differential itself is run
-    on the implementation by the check). *)
+    PARTIAL with respect to the property text: creating, deleting, renaming
+    cells and spaces, base changes, creating / shadowing / deleting references
+    are not operations of this executor model (they live in the Defs / Names /
+    Alive layers, C03, C11-C13, and are covered here only through the
+    "derived cells" realisation of the correspondence).  The differential
+    form of the property text is [C02_live_equals_edits_only] below. *)
 Theorem C02_answers_follow_current_definitions_partial :
   forall fuel cells refs maxd ops xs st,
   defs_ok cells -> refn_ok (init cells refs maxd) -> ops_ok2 fuel (init cells refs maxd) ops ->
@@ -50,6 +46,55 @@ Theorem C02_step_preserves_invariant : forall fuel st o x st',
 Proof. exact step_quiet2. Qed.
 Print Assumptions C02_step_preserves_invariant.
 
+(** THE DIFFERENTIAL FORM (the property as worded).  [Diff.adefs] /
+    [Diff.ainp_step] are the abstract model: what one edit does to the
+    definitions and to the user-assigned values, evaluations doing nothing.
+    In every state reached, definitions and assigned values are those of the
+    abstract run over the history — i.e. of its edits alone. *)
+Theorem C02_definitions_and_inputs_follow_the_edits : forall fuel ops st xs st',
+  run fuel st ops = (xs, st') -> no_fuel_out xs -> Quiet st -> RgOK st -> refn_ok st -> s_reent st = false ->
+  aops_ok (defs_of st) ops ->
+  s_reent st' = true \/
+  (Quiet st' /\ RgOK st' /\ refn_ok st' /\
+   defs_of st' = arun_defs ops (defs_of st) /\
+   forall i, ainp st' i = arun_inp ops (defs_of st) (ainp st) i).
+Proof. exact run_abs. Qed.
+Print Assumptions C02_definitions_and_inputs_follow_the_edits.
+
+(** two histories whose edits coincide answer every request alike, whatever
+    was evaluated, served from the cache, failed or recalculated in between *)
+Theorem C02_same_edits_same_answers : forall fuel cells refs maxd ops1 ops2 xs1 xs2 st1 st2,
+  defs_ok cells -> refn_ok (init cells refs maxd) ->
+  edits ops1 = edits ops2 -> aops_ok (cells, refs) ops1 ->
+  run fuel (init cells refs maxd) ops1 = (xs1, st1) -> no_fuel_out xs1 -> s_reent st1 = false ->
+  run fuel (init cells refs maxd) ops2 = (xs2, st2) -> no_fuel_out xs2 -> s_reent st2 = false ->
+  forall i r1 r2 st1' st2',
+    eval_top fuel st1 i = (r1, st1') -> eval_top fuel st2 i = (r2, st2') ->
+    r1 <> OutOfFuel -> r2 <> OutOfFuel -> r1 <> Err KDeep -> r2 <> Err KDeep ->
+    r1 = r2.
+Proof. exact same_edits_same_answers. Qed.
+Print Assumptions C02_same_edits_same_answers.
+
+(** every value the model returns equals the value returned by a model to
+    which only the edits were applied, with no evaluation in between *)
+Theorem C02_live_equals_edits_only : forall fuel cells refs maxd ops xs xs' st st_e,
+  defs_ok cells -> refn_ok (init cells refs maxd) -> aops_ok (cells, refs) ops ->
+  run fuel (init cells refs maxd) ops = (xs, st) -> no_fuel_out xs -> s_reent st = false ->
+  run fuel (init cells refs maxd) (edits ops) = (xs', st_e) -> no_fuel_out xs' -> s_reent st_e = false ->
+  forall i r r' st1 st2,
+    eval_top fuel st i = (r, st1) -> eval_top fuel st_e i = (r', st2) ->
+    r <> OutOfFuel -> r' <> OutOfFuel -> r <> Err KDeep -> r' <> Err KDeep ->
+    r = r'.
+Proof. exact live_equals_edits_only. Qed.
+Print Assumptions C02_live_equals_edits_only.
+
+(** the reference graph mentions only elements holding a computed value
+    (false of the pinned code: finding D40, fixed) *)
+Theorem C02_reference_graph_has_no_stale_reader : forall fuel st o x st',
+  step fuel st o = (x, st') -> x <> OFuel -> Quiet st -> RgOK st -> RgOK st'.
+Proof. exact step_RgOK. Qed.
+Print Assumptions C02_reference_graph_has_no_stale_reader.
+
 (** non-vacuity: an edit history over a model with a reference, an uncached
     cells and recursion; the stale candidate is recomputed *)
 Definition ex2_cells : list (cid * cell) :=
@@ -62,3 +107,19 @@ Example C02_example :
               OpSetRef 0 (VInt 6); OpEval (0, [VInt 3])] in
   fst r = [OVal (VInt 11); OOk; OVal (VInt 9); OOk; OVal (VInt 7); OOk; OVal (VInt 10)] /\ s_reent (snd r) = false.
 Proof. vm_compute. split; reflexivity. Qed.
+
+(** the same history against its edits-only replay: hypotheses of
+    [C02_live_equals_edits_only] hold and both models answer alike *)
+Example C02_differential_example :
+  let ops := [OpEval (0, [VInt 3]); OpSetFormula 1 [SAssign (EBin Add (EPar 0) (EConst (VInt 1)))] 1 [];
+              OpEval (0, [VInt 3]); OpSetValue (0, [VInt 4]) (VInt 7); OpEval (0, [VInt 4]);
+              OpSetRef 0 (VInt 6); OpEval (0, [VInt 3])] in
+  let st0 := init ex2_cells [(0, (Some 1, VInt 5))] 50 in
+  let live := run 200 st0 ops in
+  let repl := run 200 st0 (edits ops) in
+  List.length (edits ops) = 3
+  /\ s_reent (snd live) = false /\ s_reent (snd repl) = false
+  /\ fst (eval_top 200 (snd live) (0, [VInt 3])) = Val (VInt 10)
+  /\ fst (eval_top 200 (snd repl) (0, [VInt 3])) = Val (VInt 10)
+  /\ fst (eval_top 200 (snd live) (0, [VInt 4])) = fst (eval_top 200 (snd repl) (0, [VInt 4])).
+Proof. vm_compute. repeat split; reflexivity. Qed.
